@@ -362,7 +362,8 @@ package parser
 // find splits what was read into body and delimiter line without losing a
 // part: the body is everything before the delimiter line.
 //@ func (*lexer).lexHeredoc$1
-//@   requires r != nil
+//@   requires r != nil && l != nil && !locked(l.mu) && !locked(l.heredoc.mu)
+//@   ensures[C01] mutex-released: !locked(l.mu) && !locked(l.heredoc.mu)
 //@   site COL = call ast.(Pos).Col
 //@   site LINE = call parser.(*lexer).print
 //@   ensures[C07 C08] delimiter-line-is-a-whole-line-equal-to-the-delimiter: result ==> site(COL) && siteret(COL) == 1 && site(LINE) && siteret(LINE) == delim
